@@ -33,6 +33,8 @@ type Program struct {
 	allFns    map[*ssa.Function]bool
 	storesTo  map[*ssa.Global]bool
 	asTargets []types.Type
+	effCache  map[string]bool
+	byMethod  map[string][]*ssa.Function
 }
 
 func loadProgram(repo string, patterns []string) (*Program, error) {
@@ -294,4 +296,108 @@ func funcDisplay(fn *ssa.Function) string {
 	}
 	// functions in the root package
 	return pkg + s[j:]
+}
+
+// effect sources
+func effectSource(fn *ssa.Function, eff string) bool {
+	if fn == nil {
+		return false
+	}
+	name := fn.String()
+	pkg := ""
+	if fn.Pkg != nil {
+		pkg = fn.Pkg.Pkg.Path()
+	}
+	switch eff {
+	case "random":
+		return pkg == "math/rand" || pkg == "math/rand/v2" || pkg == "crypto/rand" ||
+			name == "github.com/google/uuid.NewRandom" || name == "github.com/google/uuid.New" || name == "github.com/google/uuid.NewString" || name == "github.com/google/uuid.NewUUID"
+	case "clock":
+		return name == "time.Now" || name == "time.Since" || name == "time.Until"
+	case "env":
+		return name == "os.Getenv" || name == "os.LookupEnv" || name == "os.Environ"
+	}
+	return false
+}
+
+// mayEffect: can fn (transitively, through static calls, closures and repo methods of the invoked name) reach a source?
+// A syntactic over-approximation: path conditions are ignored.
+func (P *Program) mayEffect(fn *ssa.Function, eff string) bool {
+	P.immutMu.Lock()
+	if P.effCache == nil {
+		P.effCache = map[string]bool{}
+		P.byMethod = map[string][]*ssa.Function{}
+		for f := range P.allFnsLocked() {
+			if f.Signature.Recv() != nil {
+				P.byMethod[f.Name()] = append(P.byMethod[f.Name()], f)
+			}
+		}
+	}
+	P.immutMu.Unlock()
+	key := eff + "|" + fn.String()
+	P.immutMu.Lock()
+	if v, ok := P.effCache[key]; ok {
+		P.immutMu.Unlock()
+		return v
+	}
+	P.immutMu.Unlock()
+	seen := map[*ssa.Function]bool{}
+	var rec func(f *ssa.Function) bool
+	rec = func(f *ssa.Function) bool {
+		if f == nil || seen[f] {
+			return false
+		}
+		seen[f] = true
+		if effectSource(f, eff) {
+			return true
+		}
+		if !P.isRepoFunc(f) {
+			return false
+		}
+		for _, b := range f.Blocks {
+			for _, in := range b.Instrs {
+				if eff == "maporder" {
+					if r, ok := in.(*ssa.Range); ok && isMap(r.X.Type()) {
+						return true
+					}
+				}
+				if mc, ok := in.(*ssa.MakeClosure); ok {
+					if rec(mc.Fn.(*ssa.Function)) {
+						return true
+					}
+				}
+				ci, ok := in.(ssa.CallInstruction)
+				if !ok {
+					continue
+				}
+				cc := ci.Common()
+				if cc.IsInvoke() {
+					for _, m := range P.byMethod[cc.Method.Name()] {
+						if rec(m) {
+							return true
+						}
+					}
+					continue
+				}
+				if sf := cc.StaticCallee(); sf != nil {
+					if rec(sf) {
+						return true
+					}
+				}
+			}
+		}
+		return false
+	}
+	r := rec(fn)
+	P.immutMu.Lock()
+	P.effCache[key] = r
+	P.immutMu.Unlock()
+	return r
+}
+
+func (P *Program) allFnsLocked() map[*ssa.Function]bool {
+	if P.allFns != nil {
+		return P.allFns
+	}
+	return P.allRepoFuncs()
 }
